@@ -268,20 +268,22 @@ pub(super) fn validates(
                 )
                 .unwrap_or_default()
             );
-        // Go backwards over validate calls paired with field name and what it requires
-        let iter = validates.into_iter()
+        // Validate calls paired with what they require and their field name
+        let mut pending = validates.into_iter()
             .zip(relevant_requires)
             .zip(field_name.iter().map(|f| f.to_string()))
-            .rev();
-        for ((validate, required), field_name) in iter {
-            let insert_index = out.iter()
-                .enumerate()
-                // find from the end
-                .rev()
-                .find(|(_, (_, name))| required.contains(name))
-                .map(|(index, _)| index + 1)
+            .collect::<Vec<_>>();
+        // Repeatedly take the first declared field whose required fields have all been placed already,
+        // so every field is validated after everything it requires and otherwise in declaration order
+        while !pending.is_empty() {
+            let next_index = pending.iter()
+                .position(|((_, required), _)| {
+                    required.iter().all(|r| !pending.iter().any(|(_, name)| name == r))
+                })
+                // Only reachable with cyclic requires
                 .unwrap_or(0);
-            out.insert(insert_index, (validate, field_name));
+            let ((validate, _), field_name) = pending.remove(next_index);
+            out.push((validate, field_name));
         }
         let validates = out.into_iter().map(|(validate, _)| validate);
 
